@@ -346,8 +346,10 @@ WasmQrStep(k, rec) ==
 
 (* ---------------- histories: New / Set / Build on several builders and threads (C14) ---------------- *)
 \* st.regs: sequence of <<bid, registers>>; st.memo: sequence of <<registers, result>> of the builds of this history;
-\* st.rmemo: sequence of <<qrid, renderer, hash>>.  A new history (grp) starts from empty state.
-Fresh(s, rec) == IF s.grp = rec.grp THEN s ELSE [grp |-> rec.grp, U |-> <<>>, regs |-> <<>>, memo |-> <<>>, rmemo |-> <<>>]
+\* st.rmemo: sequence of <<qrid, renderer, hash>>.
+\* a new history starts with no builders; the memo of (registers -> result) is kept across the histories of a shard:
+\* equal input and final option values must give equal results whatever happened before, in any history
+Fresh(s, rec) == IF s.grp = rec.grp THEN s ELSE [grp |-> rec.grp, U |-> <<>>, regs |-> <<>>, memo |-> s.memo, rmemo |-> <<>>]
 Lookup(seq, key) == LET hits == SelectSeq(seq, LAMBDA e : e[1] = key) IN IF Len(hits) = 0 THEN <<>> ELSE hits[Len(hits)]
 HNewStep(k, rec, s0) == LET s == Fresh(s0, rec) IN
   [s EXCEPT !.regs = Append(SelectSeq(s.regs, LAMBDA e : e[1] # rec.bid), <<rec.bid, NewRegs(rec.input)>>)]
